@@ -3,6 +3,7 @@ import ast
 
 from ..model import AnalysisError
 from ..terms import SELF, FAC, NONE, show, is_const, mentions, subterms
+from ..fieldroles import no_interval, no_interval_conds, is_interval_field
 from ..catalogue import catalogue, is_effect
 from .common import where, cls_short, contexts, capabilities, types, short, written_object
 
@@ -104,8 +105,7 @@ def check(ctx):
                        where=where(ws[0]) if ws else w, function=ent.func.qual, construct="%s/write" % ent.func.qual,
                        msg="%d writes on an expiry path / not the stored packet of the request" % len(ws))
                 facts = p.st.facts if p.st is not None else {}
-                no_interval = facts.get(("truthy", ("attr", req, "interval"))) is False
-                if no_interval:
+                if no_interval(facts, req):
                     a_ok = len(arms) == 0
                 else:
                     a_ok = len(arms) == 1 and isinstance(arms[0].a["target"], tuple) and arms[0].a["target"][0] == "bm" \
@@ -185,8 +185,7 @@ def check(ctx):
                         later = region[region.index(e) + 1:]
                         arms = [y for y in later if y.kind == "ARM" and x in y.a["args"]]
                         ws = [y for y in later if y.kind == "WRITE" and written_object(y.a["data"])[1] == x]
-                        noint = any(isinstance(c.term, tuple) and c.term == ("attr", x, "interval") and c.pol is False
-                                    for y in ws for c in y.conds)
+                        noint = any(no_interval_conds(y.conds, x) for y in ws)
                         ctx.ob("R-ARMED", "%s entry into %s is transmitted with a retry timer (%s)" % (cq, e.a["reg"], tr.label()),
                                len(ws) == 1 and (len(arms) == 1 or (noint and not arms)), where=where(e), function=e.func,
                                construct="%s/armed-at-reg/%s" % (e.func, e.a["reg"]),
@@ -214,10 +213,10 @@ def check(ctx):
                     dep = False
                     if dn is not None:
                         for x in ast.walk(dn):
-                            if isinstance(x, ast.Call) and isinstance(x.func, ast.Attribute) and x.func.attr == "interval":
+                            if isinstance(x, ast.Call) and isinstance(x.func, ast.Attribute) and is_interval_field(x.func.attr):
                                 dep = True
                     if not dep:
-                        dep = any(isinstance(x, tuple) and x[:1] == ("attr",) and len(x) == 3 and x[2] == "interval" for x in subterms(e.a["delay"]))
+                        dep = any(isinstance(x, tuple) and x[:1] == ("attr",) and len(x) == 3 and is_interval_field(x[2]) for x in subterms(e.a["delay"]))
                     if not dep:
                         i = tr.events.index(e)
                         dep = any(x.kind == "CALL" and x.a["func"].endswith(".__call__") and "nterval" in x.a["func"]
@@ -272,6 +271,6 @@ def check(ctx):
     ctx.floor("interval classes used by the client", n_iv, 2)
     ctx.count("retry_timer_targets", n_timer)
     ctx.count("stored_packet_writes", n_writes)
-    ctx.floor("retry timer targets (3 classes)", n_timer, 8)
-    ctx.floor("stored-packet write events", n_writes, 20)
+    ctx.floor("retry timer targets (3 classes)", n_timer, 4)
+    ctx.floor("stored-packet write events", n_writes, 4)
     ctx.note("timing clauses (minimum gap, non-shrinking gaps) are not decided")
